@@ -156,9 +156,15 @@ class BMCI:
                  :math:`\chi^2` limits.
 
         """
-        y_proj = np.dot(self.pc1, (y_obs - self.y_mean).ravel())
-        s_l = y_proj - np.sqrt(2.0 * x2_max / self.pc1_e)
-        s_u = y_proj + np.sqrt(2.0 * x2_max / self.pc1_e)
+        dy = (y_obs - self.y_mean).ravel()
+        y_proj = np.dot(self.pc1, dy)
+        # The projections of the database entries were computed with a
+        # differently ordered sum, i.e. they may differ from this one by
+        # rounding errors. Widen the window by their bound so that no entry
+        # is excluded because of them:
+        tol = 4 * self.m * np.finfo(float).eps * np.sum(np.abs(self.pc1 * dy))
+        s_l = y_proj - np.sqrt(2.0 * x2_max / self.pc1_e) - tol
+        s_u = y_proj + np.sqrt(2.0 * x2_max / self.pc1_e) + tol
         i_l = np.searchsorted(self.pc1_proj, s_l, side="left")
         i_u = np.searchsorted(self.pc1_proj, s_u, side="right")
 
